@@ -303,7 +303,12 @@ func SelectorRules(p *core.Prog, r *core.Report) {
 	r.Rule("SELECTOR-SPLIT", "a selector clause is split into name and regexp at its FIRST `=` (IndexByte/Index/SplitN(...,2)/Cut), so the regexp may itself contain `=`", 1)
 	r.Rule("STRAND-PRED", "ForwardStrand and ReverseStrand accept exactly CheckStrand(loc) == StrandForward resp. StrandReverse (the strand has three values; mixed-strand locations are neither)", 2)
 	info := p.Info(core.PkgGts)
-	if fd := p.FuncDecl(core.PkgGts, "toQualifier"); fd == nil || fd.Body == nil {
+	fd := p.FuncDecl(core.PkgGts, "toQualifier")
+	if fd == nil {
+		// the helper may have been folded into its only caller: the clause is then split there
+		fd = p.FuncDecl(core.PkgGts, "Selector")
+	}
+	if fd == nil || fd.Body == nil {
 		r.Und("SELECTOR-SPLIT", "gts.toQualifier|anchor", "-", "anchor-unresolved")
 	} else {
 		r.Fn("gts.toQualifier")
